@@ -192,6 +192,31 @@ Proof.
     + intros e [->|Hin]; [lia|]. specialize (IH2 _ Hin). lia.
 Qed.
 
+(* ---- in-memory size accounting ---- *)
+Lemma isize_app a b : isize (a ++ b) = isize a + isize b.
+Proof.
+  unfold isize. induction a as [|x a IH]; cbn [app fold_right]; [reflexivity|]. rewrite IH. lia.
+Qed.
+Lemma isize_split k l : isize l = isize (firstn k l) + isize (skipn k l).
+Proof. rewrite <- isize_app, firstn_skipn. reflexivity. Qed.
+Lemma two64_val : 2 ^ 64 = 18446744073709551616. Proof. reflexivity. Qed.
+
+Lemma rl_set_ok rl sz n : rl_set rl sz = Some n -> n = sz mod 2 ^ 64.
+Proof. unfold rl_set. destruct rl; intros H; inversion H. reflexivity. Qed.
+Lemma rl_inc_ok rl a b : (forall n, rl = Some n -> n = isize a mod 2 ^ 64) ->
+  forall n, rl_inc rl (isize b) = Some n -> n = isize (a ++ b) mod 2 ^ 64.
+Proof.
+  intros H n Hn. unfold rl_inc in Hn. destruct rl as [m|]; [|discriminate]. inversion Hn.
+  rewrite (H m eq_refl). rewrite isize_app. rewrite N.add_mod_idemp_l by discriminate. reflexivity.
+Qed.
+Lemma rl_dec_ok rl k l : (forall n, rl = Some n -> n = isize l mod 2 ^ 64) ->
+  forall n, rl_dec rl (isize (firstn k l)) = Some n -> n = isize (skipn k l) mod 2 ^ 64.
+Proof.
+  intros H n Hn. unfold rl_dec in Hn. destruct rl as [m|]; [|discriminate]. inversion Hn.
+  rewrite (H m eq_refl). rewrite (isize_split k l). rewrite two64_val.
+  set (a := isize (firstn k l)). set (b := isize (skipn k l)). lia.
+Qed.
+
 (* ------------------------------------------------------------------ *)
 (* the invariant tying the faithful model to the logical log           *)
 
@@ -256,7 +281,9 @@ Record R (w : world) (sp : spec) : Prop := {
   r_q : match sp_pend sp with
         | None => w_queue w = []
         | Some p => exists ud, w_queue w = [mkPend ud (sp_persisted sp)] /\ ud_rel sp ud p
-        end }.
+        end;
+  (* what the rate limiter has recorded is exactly the in-memory size of the window *)
+  r_rl : forall n, im_rl (el_im (w_el w)) = Some n -> n = isize (im_ents (el_im (w_el w))) mod 2 ^ 64 }.
 
 (* ---- consequences used everywhere ---- *)
 Section Facts.
@@ -732,9 +759,10 @@ Lemma R_el_update w sp el' sp' :
   sp_saved sp' <= sp_saved sp ->
   (forall i, sp_mi sp < i -> i <= sp_saved sp' -> sp_get sp' i = sp_get sp i) ->
   (sp_saved sp' = sp_last sp' -> sp_saved sp = sp_last sp /\ sp_last sp' = sp_last sp) ->
+  (forall n, im_rl (el_im el') = Some n -> n = isize (im_ents (el_im el')) mod 2 ^ 64) ->
   R (with_el w el') sp'.
 Proof.
-  intros HR HS' Hidle Hmi Hmt Hsn Hp' Hpers' Hc Hp Hs M2 W1 W2 W3 W4 Wsn Hsnap Ha1 Ha2 Hcc Hterm Hsv Hget Hlast.
+  intros HR HS' Hidle Hmi Hmt Hsn Hp' Hpers' Hc Hp Hs M2 W1 W2 W3 W4 Wsn Hsnap Ha1 Ha2 Hcc Hterm Hsv Hget Hlast Hrl.
   destruct (idle_cover _ (r_si _ _ HR) Hidle) as (Hpers & Hcov).
   assert (Hcov' : cover sp' = sp_saved sp') by (unfold cover; rewrite Hpers'; reflexivity).
   assert (Hok : rd_ok sp' = rd_ok sp) by (unfold rd_ok; rewrite Hsn, Hpers, Hpers'; reflexivity).
@@ -760,6 +788,7 @@ Proof.
     destruct (N.lt_ge_cases (sp_mi sp) (sp_saved sp)) as [H|H]; [specialize (SM H); lia|lia].
   - rewrite Hok. apply (r_ss _ _ HR).
   - rewrite Hp'. pose proof (r_q _ _ HR) as Q. rewrite Hidle in Q. exact Q.
+  - exact Hrl.
 Qed.
 
 Lemma sp_term_eq sp sp' i : sp_mi sp' = sp_mi sp -> sp_mt sp' = sp_mt sp -> sp_get sp' i = sp_get sp i ->
@@ -787,6 +816,7 @@ Proof.
     + apply (r_w3 _ _ HR).
     + apply (r_w4 _ _ HR).
     + apply (r_snapm _ _ HR).
+    + apply (r_rl _ _ HR).
 Qed.
 
 (* ---- append ---- *)
@@ -916,7 +946,8 @@ Proof.
             /\ (forall i, sp_mi sp < i -> im_marker im' <= i -> nth_error (im_ents im') (N.to_nat (i - im_marker im')) = sp_get sp' i)
             /\ im_marker im' + nlen (im_ents im') = sp_last sp' + 1
             /\ (im_marker im' <= sp_mi sp -> exists e, nth_error (im_ents im') (N.to_nat (sp_mi sp - im_marker im')) = Some e /\ e_term e = sp_mt sp)
-            /\ (sp_snap sp = true -> im_marker im' = sp_mi sp + 1)).
+            /\ (sp_snap sp = true -> im_marker im' = sp_mi sp + 1)
+            /\ (forall n, im_rl im' = Some n -> n = isize (im_ents im') mod 2 ^ 64)).
   { unfold im_merge, ents. fold f. fold ents. rewrite FL.
     destruct (f =? sp_last sp + 1) eqn:E1.
     - (* plain append *)
@@ -926,19 +957,21 @@ Proof.
       rewrite HPe in *.
       rewrite (check_append_ok (im_marker (el_im (w_el w)))) by exact W1. cbn [bind].
       rewrite check_marker_hd by (cbn [im_marker im_ents]; exact W1).
-      eexists; split; [reflexivity|]. cbn [im_snap im_aidx im_aterm im_saved im_marker im_ents]. rewrite (r_s _ _ HR).
+      eexists; split; [reflexivity|]. cbn [im_snap im_aidx im_aterm im_saved im_marker im_ents im_rl]. rewrite (r_s _ _ HR).
       split; [reflexivity|]. split; [reflexivity|]. split; [reflexivity|]. split; [lia|]. split; [lia|].
-      split; [exact W1|]. split; [exact W2|]. split; [exact W3|]. split; [exact W4|]. apply (r_snapm _ _ HR).
+      split; [exact W1|]. split; [exact W2|]. split; [exact W3|]. split; [exact W4|]. split; [apply (r_snapm _ _ HR)|].
+      apply rl_inc_ok. apply (r_rl _ _ HR).
     - destruct (f <=? im_marker (el_im (w_el w))) eqn:E2.
       + (* replace everything in memory *)
         cbn [bind]. rewrite check_marker_hd by (cbn [im_marker im_ents]; exact Hlog).
-        eexists; split; [reflexivity|]. cbn [im_snap im_aidx im_aterm im_saved im_marker im_ents].
+        eexists; split; [reflexivity|]. cbn [im_snap im_aidx im_aterm im_saved im_marker im_ents im_rl].
         split; [reflexivity|]. split; [reflexivity|]. split; [reflexivity|]. split; [lia|]. split; [lia|].
-        split; [exact Hlog|]. split; [|split; [|split]].
+        split; [exact Hlog|]. split; [|split; [|split; [|split]]].
         * intros i Hi1 Hi2. rewrite Hnew by lia. reflexivity.
         * rewrite Hlast'. lia.
         * intros; lia.
         * intros Es. pose proof (r_snapm _ _ HR Es). lia.
+        * intros n Hn. apply (rl_set_ok _ _ _ Hn).
       + (* truncate and append *)
         destruct HP as (HPl & W1 & W2 & W3 & W4); [lia|].
         unfold im_get_entries. rewrite FL.
@@ -947,10 +980,11 @@ Proof.
         replace (N.to_nat (im_marker (el_im (w_el w)) - im_marker (el_im (w_el w)))) with 0%nat by lia. cbn [skipn]. fold P.
         rewrite (check_append_ok (im_marker (el_im (w_el w)))) by exact W1. cbn [bind].
         rewrite check_marker_hd by (cbn [im_marker im_ents]; exact W1).
-        eexists; split; [reflexivity|]. cbn [im_snap im_aidx im_aterm im_saved im_marker im_ents]. rewrite (r_s _ _ HR).
+        eexists; split; [reflexivity|]. cbn [im_snap im_aidx im_aterm im_saved im_marker im_ents im_rl]. rewrite (r_s _ _ HR).
         split; [reflexivity|]. split; [reflexivity|]. split; [reflexivity|]. split; [lia|]. split; [lia|].
-        split; [exact W1|]. split; [exact W2|]. split; [exact W3|]. split; [exact W4|]. apply (r_snapm _ _ HR). }
-  destruct HM as (im' & Hm & I1 & I2 & I3 & I4 & I5 & I6 & I7 & I8 & I9 & I10).
+        split; [exact W1|]. split; [exact W2|]. split; [exact W3|]. split; [exact W4|]. split; [apply (r_snapm _ _ HR)|].
+        intros n Hn. rewrite (rl_set_ok _ _ _ Hn), isize_app. f_equal. lia. }
+  destruct HM as (im' & Hm & I1 & I2 & I3 & I4 & I5 & I6 & I7 & I8 & I9 & I10 & I11).
   unfold el_append, ents. fold f. fold ents. rewrite (r_c _ _ HR).
   destruct (f <=? sp_committed sp) eqn:E; [lia|].  rewrite Hm. cbn [bind].
   eexists; split; [reflexivity|].
@@ -1032,8 +1066,8 @@ Proof.
     unfold nlen in E. lia.
 Qed.
 
-Lemma R_init mi mt ents c limit : wf_init mi mt ents c = true ->
-  R (w_init mi mt ents c limit) (sp_init mi mt ents c).
+Lemma R_init_rl rlon mi mt ents c limit : wf_init mi mt ents c = true ->
+  R (w_init_rl rlon mi mt ents c limit) (sp_init mi mt ents c).
 Proof.
   intros Hwf. unfold wf_init in Hwf. repeat (apply andb_true_iff in Hwf as [Hwf ?]).
   destruct (bool_log_ok _ _ _ Hwf H2) as (Hlog & _); [lia|].
@@ -1052,10 +1086,10 @@ Proof.
         destruct (mi + 1 - 0 <? 1) eqn:E3; [lia|]. destruct (1 =? mi + 1 - 0) eqn:E4; [|lia].
         cbn [lr_marker lr_len lr_mterm lr_ssidx]. repeat split; lia. }
   destruct HLR as (lr & Elr & L1 & L2 & L3 & L4).
-  unfold w_init. rewrite <- ?Hn. rewrite Elr. unfold el_new, im_new, lr_first, lr_last. rewrite L1, L3.
+  unfold w_init_rl. rewrite <- ?Hn. rewrite Elr. unfold el_new, im_new, lr_first, lr_last. rewrite L1, L3.
   assert (Hlast : sp_last (sp_init mi mt ents c) = mi + n) by (unfold sp_last; cbn; lia).
   unfold sp_init in *.
-  constructor; cbn [w_el w_lr w_st w_queue el_im el_committed el_processed im_saved im_marker im_ents im_snap im_aidx im_aterm
+  constructor; cbn [w_el w_lr w_st w_queue el_im el_committed el_processed im_saved im_marker im_ents im_snap im_aidx im_aterm im_rl
                     sp_init sp_mi sp_mt sp_ents sp_committed sp_processed sp_saved sp_snap sp_pend sp_persisted]; rewrite <- ?Hn; try lia.
   - constructor; cbn; rewrite <- ?Hn; unfold sp_last; cbn; rewrite <- ?Hn; try lia; try congruence.
     + exact Hlog.
@@ -1077,7 +1111,12 @@ Proof.
     unfold st_save. rewrite Ee. rewrite <- Ee. cbn [st_max]. rewrite (log_ok_last _ _ Hlog) by congruence. rewrite <- ?Hn. lia.
   - split; [lia|]. unfold rd_ok. cbn [sp_snap sp_persisted negb orb]. congruence.
   - reflexivity.
+  - destruct rlon; intros k Hk; inversion Hk. reflexivity.
 Qed.
+
+Lemma R_init mi mt ents c limit : wf_init mi mt ents c = true ->
+  R (w_init mi mt ents c limit) (sp_init mi mt ents c).
+Proof. apply R_init_rl. Qed.
 
 (* ------------------------------------------------------------------ *)
 (* restore                                                             *)
@@ -1126,6 +1165,7 @@ Proof.
       * unfold cover. cbn [sp_persisted sp_saved sp_mi]. intros; lia.
       * unfold cover. cbn [sp_persisted sp_saved sp_mi]. intros; lia.
       * pose proof (r_q _ _ HR) as Q. rewrite Ep in Q. exact Q.
+      * cbn [im_rl]. intros n Hn. rewrite (rl_set_ok _ _ _ Hn). reflexivity.
 Qed.
 
 (* ------------------------------------------------------------------ *)
@@ -1281,6 +1321,7 @@ Proof.
     split; [reflexivity|]. split.
     { unfold update_commit. destruct (sp_to_save sp); destruct (sp_snap sp); destruct apl; reflexivity. }
     reflexivity.
+  - apply (r_rl _ _ HR).
 Qed.
 
 (* ------------------------------------------------------------------ *)
@@ -1372,6 +1413,7 @@ Proof.
     + rewrite <- Es in *. destruct SF as (F1 & _); [congruence|]. unfold st_save. rewrite Es. rewrite <- Es. cbn [st_max]. lia.
   - rewrite B3. split; [exact A6|]. unfold rd_ok. cbn [sp_persisted sp_snap]. rewrite orb_true_r. discriminate.
   - eexists; split; [reflexivity|]. exact Hud.
+  - apply (r_rl _ _ HR).
 Qed.
 
 (* ------------------------------------------------------------------ *)
@@ -1404,11 +1446,11 @@ Proof.
   (* savedLogTo + savedSnapshotTo *)
   assert (HA : exists im1, im_commit_update (el_im (w_el w)) (uc_stable_to (ud_uc ud)) (uc_stable_term (ud_uc ud)) (uc_stable_snap (ud_uc ud)) = Ok im1
               /\ im_saved im1 = sp_last sp /\ im_snap im1 = None /\ im_ents im1 = im_ents (el_im (w_el w)) /\ im_marker im1 = im_marker (el_im (w_el w))
-              /\ im_aidx im1 = im_aidx (el_im (w_el w)) /\ im_aterm im1 = im_aterm (el_im (w_el w))).
+              /\ im_aidx im1 = im_aidx (el_im (w_el w)) /\ im_aterm im1 = im_aterm (el_im (w_el w)) /\ im_rl im1 = im_rl (el_im (w_el w))).
   { unfold im_commit_update.
     assert (HB : exists im0, (if 0 <? uc_stable_to (ud_uc ud) then im_saved_log_to (el_im (w_el w)) (uc_stable_to (ud_uc ud)) (uc_stable_term (ud_uc ud)) else Ok (el_im (w_el w))) = Ok im0
                /\ im_saved im0 = sp_last sp /\ im_snap im0 = im_snap (el_im (w_el w)) /\ im_ents im0 = im_ents (el_im (w_el w)) /\ im_marker im0 = im_marker (el_im (w_el w))
-               /\ im_aidx im0 = im_aidx (el_im (w_el w)) /\ im_aterm im0 = im_aterm (el_im (w_el w))).
+               /\ im_aidx im0 = im_aidx (el_im (w_el w)) /\ im_aterm im0 = im_aterm (el_im (w_el w)) /\ im_rl im0 = im_rl (el_im (w_el w))).
     { destruct (spd_save_last p) as [[i t]|].
       - destruct U2 as (-> & -> & -> & -> & X).
         destruct (0 <? sp_last sp) eqn:E0; [|lia]. unfold im_saved_log_to.
@@ -1424,14 +1466,14 @@ Proof.
         rewrite H, N.eqb_refl. eexists; split; [reflexivity|]. cbn. repeat split; reflexivity.
       - destruct U2 as (-> & X). cbn [N.ltb]. replace (0 <? 0) with false by reflexivity.
         eexists; split; [reflexivity|]. repeat split; auto. rewrite (r_s _ _ HR). exact X. }
-    destruct HB as (im0 & -> & B1 & B2 & B3 & B4 & B5 & B6). cbn [bind].
+    destruct HB as (im0 & -> & B1 & B2 & B3 & B4 & B5 & B6 & B7). cbn [bind].
     rewrite U7. destruct (sp_snap sp) eqn:Es.
     - destruct (si_snap _ HS Es) as (_ & X). destruct (0 <? sp_mi sp) eqn:E; [|lia].
       unfold im_saved_snapshot_to. rewrite B2. rewrite (r_snap _ _ HR), Es, N.eqb_refl.
       eexists; split; [reflexivity|]. cbn. repeat split; auto.
     - replace (0 <? 0) with false by reflexivity. eexists; split; [reflexivity|].
       repeat split; auto. rewrite B2. rewrite (r_snap _ _ HR), Es. reflexivity. }
-  destruct HA as (im1 & HA & A1 & A2 & A3 & A4 & A5 & A6).
+  destruct HA as (im1 & HA & A1 & A2 & A3 & A4 & A5 & A6 & A7).
   (* appliedLogTo *)
   set (la := uc_last_applied (ud_uc ud)) in *.
   assert (HC : exists im2, (if 0 <? la then
@@ -1445,19 +1487,21 @@ Proof.
             /\ im_marker im2 + nlen (im_ents im2) = sp_last sp + 1
             /\ (im_marker im2 <= sp_mi sp -> exists e, nth_error (im_ents im2) (N.to_nat (sp_mi sp - im_marker im2)) = Some e /\ e_term e = sp_mt sp)
             /\ im_aidx im2 <= sp_committed sp
-            /\ (im_aidx im2 <> 0 -> sp_mi sp <= im_aidx im2 -> im_aterm im2 = sp_term sp (im_aidx im2) /\ im_aterm im2 <> 0)).
+            /\ (im_aidx im2 <> 0 -> sp_mi sp <= im_aidx im2 -> im_aterm im2 = sp_term sp (im_aidx im2) /\ im_aterm im2 <> 0)
+            /\ (forall n, im_rl im2 = Some n -> n = isize (im_ents im2) mod 2 ^ 64)).
   { assert (Hkeep : im_saved im1 = sp_last sp /\ im_snap im1 = None /\ im_marker im1 <= sp_last sp + 1
             /\ log_ok (im_marker im1) (im_ents im1)
             /\ (forall i, sp_mi sp < i -> im_marker im1 <= i -> nth_error (im_ents im1) (N.to_nat (i - im_marker im1)) = sp_get sp i)
             /\ im_marker im1 + nlen (im_ents im1) = sp_last sp + 1
             /\ (im_marker im1 <= sp_mi sp -> exists e, nth_error (im_ents im1) (N.to_nat (sp_mi sp - im_marker im1)) = Some e /\ e_term e = sp_mt sp)
             /\ im_aidx im1 <= sp_committed sp
-            /\ (im_aidx im1 <> 0 -> sp_mi sp <= im_aidx im1 -> im_aterm im1 = sp_term sp (im_aidx im1) /\ im_aterm im1 <> 0)).
-    { rewrite A3, A4, A5, A6. split; [exact A1|]. split; [exact A2|]. split; [lia|]. split; [exact FLog|].
-      split; [apply (r_w2 _ _ HR)|]. split; [exact FL|]. split; [apply (r_w4 _ _ HR)|]. split; [apply (r_a1 _ _ HR)|apply (r_a2 _ _ HR)]. }
+            /\ (im_aidx im1 <> 0 -> sp_mi sp <= im_aidx im1 -> im_aterm im1 = sp_term sp (im_aidx im1) /\ im_aterm im1 <> 0)
+            /\ (forall n, im_rl im1 = Some n -> n = isize (im_ents im1) mod 2 ^ 64)).
+    { rewrite A3, A4, A5, A6, A7. split; [exact A1|]. split; [exact A2|]. split; [lia|]. split; [exact FLog|].
+      split; [apply (r_w2 _ _ HR)|]. split; [exact FL|]. split; [apply (r_w4 _ _ HR)|]. split; [apply (r_a1 _ _ HR)|]. split; [apply (r_a2 _ _ HR)|apply (r_rl _ _ HR)]. }
     destruct (0 <? la) eqn:E0; [|exists im1; split; [reflexivity|exact Hkeep]].
     destruct (sp_committed sp <? la) eqn:E1; [lia|]. destruct (pr' <? la) eqn:E2; [lia|].
-    unfold im_applied_log_to. rewrite A4, A3.
+    unfold im_applied_log_to. rewrite A4, A3, A7.
     destruct (la <? im_marker (el_im (w_el w))) eqn:E3; [exists im1; split; [reflexivity|exact Hkeep]|].
     destruct (im_ents (el_im (w_el w))) as [|x0 xs] eqn:Ee; [rewrite nlen_nil in FL; lia|]. rewrite <- Ee in *.
     replace (is_nil (im_ents (el_im (w_el w)))) with false by (rewrite Ee; reflexivity).
@@ -1471,8 +1515,8 @@ Proof.
     assert (W1' : log_ok (la + 1) (skipn k (im_ents (el_im (w_el w))))).
     { replace (la + 1) with (im_marker (el_im (w_el w)) + N.of_nat k) by (unfold k; lia). apply log_ok_skipn. exact FLog. }
     rewrite check_marker_hd by (cbn [im_marker im_ents]; exact W1'). cbn [bind].
-    eexists; split; [reflexivity|]. cbn [im_saved im_snap im_marker im_ents im_aidx im_aterm].
-    split; [exact A1|]. split; [exact A2|]. split; [lia|]. split; [exact W1'|]. split; [|split; [|split; [|split]]].
+    eexists; split; [reflexivity|]. cbn [im_saved im_snap im_marker im_ents im_aidx im_aterm im_rl].
+    split; [exact A1|]. split; [exact A2|]. split; [lia|]. split; [exact W1'|]. split; [|split; [|split; [|split; [|split]]]].
     - intros i Hi1 Hi2. rewrite nth_error_skipn. rewrite <- (r_w2 _ _ HR i Hi1) by lia.  f_equal. unfold k. lia.
     - rewrite nlen_skipn. unfold k. unfold nlen in *. lia.
     - intros Hm. destruct (r_w4 _ _ HR) as (e' & Ge' & Gt'); [lia|]. exists e'. split; [|exact Gt'].
@@ -1483,8 +1527,9 @@ Proof.
       + destruct (r_w4 _ _ HR) as (e' & Ge' & Gt'); [lia|].  rewrite <- Heq in Ge'. rewrite En in Ge'.
         inversion Ge'; subst e'. unfold sp_term. rewrite Heq, N.eqb_refl. exact Gt'.
       + pose proof (r_w2 _ _ HR la) as X.  rewrite En in X. unfold sp_term.
-        destruct (la =? sp_mi sp) eqn:E6; [lia|]. rewrite <- X by lia. reflexivity. }
-  destruct HC as (im2 & HC & C1 & C2 & C3 & C4 & C5 & C6 & C7 & C8 & C9).
+        destruct (la =? sp_mi sp) eqn:E6; [lia|]. rewrite <- X by lia. reflexivity.
+    - apply rl_dec_ok. apply (r_rl _ _ HR). }
+  destruct HC as (im2 & HC & C1 & C2 & C3 & C4 & C5 & C6 & C7 & C8 & C9 & C10).
   cbn [step]. unfold w_commit. rewrite Hq. cbn [p_persisted p_ud]. unfold el_commit_update.  rewrite HA. cbn [bind].
   rewrite (r_p _ _ HR), (r_c _ _ HR), U3.
   assert (HP : (if 0 <? spd_processed p
@@ -1607,6 +1652,7 @@ Proof.
       { destruct (spd_save_last p) as [[i t]|]; [|exact U2]. destruct U2 as (X1 & X2 & X3 & X4 & X5).
         repeat split; auto. rewrite Hterm by lia. exact X4. }
       cbn [sp' sp_committed sp_processed sp_saved sp_snap sp_mi sp_mt]. rewrite Es in *. repeat split; auto.
+    + apply (r_rl _ _ HR).
 Qed.
 
 (* ------------------------------------------------------------------ *)
@@ -1793,47 +1839,47 @@ Proof.
     exists w'. split; [|split; [exact HR'|exact Hl']]. cbn [run]. rewrite Hs. cbn [bind]. exact Hr.
 Qed.
 
-Lemma run_init limit mi mt ents c ops :
+Lemma run_init rlon limit mi mt ents c ops :
   wf_init mi mt ents c = true -> wf_ops limit (sp_init mi mt ents c) ops = true ->
-  exists w', run (w_init mi mt ents c limit) ops = Ok w' /\ R w' (sp_run limit (sp_init mi mt ents c) ops)
+  exists w', run (w_init_rl rlon mi mt ents c limit) ops = Ok w' /\ R w' (sp_run limit (sp_init mi mt ents c) ops)
              /\ w_limit w' = limit.
-Proof. intros Hi Hwf. apply run_all; auto. apply R_init; auto. Qed.
+Proof. intros Hi Hwf. apply run_all; auto. apply R_init_rl; auto. Qed.
 
 (* for ALL well-formed operation sequences (every constructor of op), from every
    well-formed restart state: the run succeeds and all views equal the logical log's *)
-Theorem logview_refines_proved : forall mi mt ents c limit ops,
+Theorem logview_refines_proved : forall rlon mi mt ents c limit ops,
   wf_init mi mt ents c = true ->
   wf_ops limit (sp_init mi mt ents c) ops = true ->
-  exists w', run (w_init mi mt ents c limit) ops = Ok w' /\
+  exists w', run (w_init_rl rlon mi mt ents c limit) ops = Ok w' /\
              views_eq w' (sp_run limit (sp_init mi mt ents c) ops).
 Proof.
-  intros mi mt ents c limit ops Hi Hwf.
-  destruct (run_init limit mi mt ents c ops Hi Hwf) as (w' & Hr & HR & _).
+  intros rlon mi mt ents c limit ops Hi Hwf.
+  destruct (run_init rlon limit mi mt ents c ops Hi Hwf) as (w' & Hr & HR & _).
   exists w'. split; [exact Hr|apply R_views; exact HR].
 Qed.
 
-Theorem err_unreachable_under_wf_proved : forall mi mt ents c limit ops,
+Theorem err_unreachable_under_wf_proved : forall rlon mi mt ents c limit ops,
   wf_init mi mt ents c = true ->
   wf_ops limit (sp_init mi mt ents c) ops = true ->
-  (forall t, run (w_init mi mt ents c limit) ops <> Panic t) /\
-  (forall e, run (w_init mi mt ents c limit) ops <> Fail e).
+  (forall t, run (w_init_rl rlon mi mt ents c limit) ops <> Panic t) /\
+  (forall e, run (w_init_rl rlon mi mt ents c limit) ops <> Fail e).
 Proof.
-  intros mi mt ents c limit ops Hi Hwf.
-  destruct (run_init limit mi mt ents c ops Hi Hwf) as (w' & Hr & _).
+  intros rlon mi mt ents c limit ops Hi Hwf.
+  destruct (run_init rlon limit mi mt ents c ops Hi Hwf) as (w' & Hr & _).
   rewrite Hr. split; intros; discriminate.
 Qed.
 
 (* whatever counts as saved is in the store in its current version *)
-Theorem saved_entries_persisted_proved : forall mi mt ents c limit ops w',
+Theorem saved_entries_persisted_proved : forall rlon mi mt ents c limit ops w',
   wf_init mi mt ents c = true ->
   wf_ops limit (sp_init mi mt ents c) ops = true ->
-  run (w_init mi mt ents c limit) ops = Ok w' ->
+  run (w_init_rl rlon mi mt ents c limit) ops = Ok w' ->
   let sp' := sp_run limit (sp_init mi mt ents c) ops in
   forall i, sp_mi sp' < i -> i <= im_saved (el_im (w_el w')) ->
     exists e, st_get (w_st w') i = Some e /\ sp_get sp' i = Some e /\ e_index e = i.
 Proof.
-  intros mi mt ents c limit ops w' Hi Hwf Hrun sp' i H1 H2.
-  destruct (run_init limit mi mt ents c ops Hi Hwf) as (w'' & Hr & HR & _).
+  intros rlon mi mt ents c limit ops w' Hi Hwf Hrun sp' i H1 H2.
+  destruct (run_init rlon limit mi mt ents c ops Hi Hwf) as (w'' & Hr & HR & _).
   rewrite Hrun in Hr. inversion Hr; subst w''. fold sp' in HR.
   pose proof (r_si _ _ HR) as HS. rewrite (r_s _ _ HR) in H2.
   pose proof (cover_ge_saved _ HS). pose proof (si_sl _ HS).
@@ -1937,10 +1983,10 @@ Qed.
 (* an entry is never handed out for apply before it is committed and handed out
    for persistence (or already saved); FastApply updates apply saved entries only;
    validateUpdate never fires: GetUpdate succeeds in every reachable state *)
-Theorem apply_only_committed_and_handed_to_persist_proved : forall mi mt ents c limit ops w',
+Theorem apply_only_committed_and_handed_to_persist_proved : forall rlon mi mt ents c limit ops w',
   wf_init mi mt ents c = true ->
   wf_ops limit (sp_init mi mt ents c) ops = true ->
-  run (w_init mi mt ents c limit) ops = Ok w' ->
+  run (w_init_rl rlon mi mt ents c limit) ops = Ok w' ->
   let sp' := sp_run limit (sp_init mi mt ents c) ops in
   forall more la, exists ud, get_update w' more la = Ok ud /\
     (forall e, In e (ud_apply ud) ->
@@ -1948,13 +1994,27 @@ Theorem apply_only_committed_and_handed_to_persist_proved : forall mi mt ents c 
        (e_index e <= im_saved (el_im (w_el w')) \/ In e (ud_save ud))) /\
     (ud_fast ud = true -> forall e, In e (ud_apply ud) -> e_index e <= im_saved (el_im (w_el w'))).
 Proof.
-  intros mi mt ents c limit ops w' Hi Hwf Hrun sp' more la.
-  destruct (run_init limit mi mt ents c ops Hi Hwf) as (w'' & Hr & HR & Hl).
+  intros rlon mi mt ents c limit ops w' Hi Hwf Hrun sp' more la.
+  destruct (run_init rlon limit mi mt ents c ops Hi Hwf) as (w'' & Hr & HR & Hl).
   rewrite Hrun in Hr. inversion Hr; subst w''. fold sp' in HR.
   destruct (get_update_props limit w' sp' more la HR Hl) as (ud & G1 & G2 & G3 & G4).
   exists ud. split; [exact G1|]. rewrite (r_c _ _ HR), (r_s _ _ HR). split.
   - intros e He. destruct (G3 e He) as (X1 & X2 & X3 & X4). repeat split; auto.
   - exact G4.
+Qed.
+
+(* with a real rate limiter under inMemory (MaxInMemLogSize set): what it has recorded
+   is, in every reachable state, exactly pb.GetEntrySliceInMemSize of the in-memory
+   entries (Increase / Set / Decrease in merge, appliedLogTo and restore never drift) *)
+Theorem rate_limiter_accounting_exact_proved : forall rlon mi mt ents c limit ops w',
+  wf_init mi mt ents c = true ->
+  wf_ops limit (sp_init mi mt ents c) ops = true ->
+  run (w_init_rl rlon mi mt ents c limit) ops = Ok w' ->
+  forall n, im_rl (el_im (w_el w')) = Some n -> n = isize (im_ents (el_im (w_el w'))) mod 2 ^ 64.
+Proof.
+  intros rlon mi mt ents c limit ops w' Hi Hwf Hrun.
+  destruct (run_init rlon limit mi mt ents c ops Hi Hwf) as (w'' & Hr & HR & _).
+  rewrite Hrun in Hr. inversion Hr; subst w''. apply (r_rl _ _ HR).
 Qed.
 
 (* the earlier, weaker statements (appends and commitTo only) stay visible: they are
@@ -1967,14 +2027,14 @@ Theorem logview_refines_partial_proved : forall mi mt ents c limit ops,
   wf_ops limit (sp_init mi mt ents c) ops = true ->
   exists w', run (w_init mi mt ents c limit) ops = Ok w' /\
              views_eq w' (sp_run limit (sp_init mi mt ents c) ops).
-Proof. intros; apply logview_refines_proved; auto. Qed.
+Proof. intros; apply (logview_refines_proved false); auto. Qed.
 
 Theorem err_unreachable_under_wf_partial_proved : forall mi mt ents c limit ops,
   wf_init mi mt ents c = true -> forallb core_op ops = true ->
   wf_ops limit (sp_init mi mt ents c) ops = true ->
   (forall t, run (w_init mi mt ents c limit) ops <> Panic t) /\
   (forall e, run (w_init mi mt ents c limit) ops <> Fail e).
-Proof. intros; apply err_unreachable_under_wf_proved; auto. Qed.
+Proof. intros; apply (err_unreachable_under_wf_proved false); auto. Qed.
 
 Theorem saved_entries_persisted_partial_proved : forall mi mt ents c limit ops w',
   wf_init mi mt ents c = true -> forallb core_op ops = true ->
@@ -1983,4 +2043,4 @@ Theorem saved_entries_persisted_partial_proved : forall mi mt ents c limit ops w
   let sp' := sp_run limit (sp_init mi mt ents c) ops in
   forall i, sp_mi sp' < i -> i <= im_saved (el_im (w_el w')) ->
     exists e, st_get (w_st w') i = Some e /\ sp_get sp' i = Some e /\ e_index e = i.
-Proof. intros mi mt ents c limit ops w' Hi _ Hwf Hrun. apply saved_entries_persisted_proved; auto. Qed.
+Proof. intros mi mt ents c limit ops w' Hi _ Hwf Hrun. apply (saved_entries_persisted_proved false); auto. Qed.
